@@ -1070,8 +1070,11 @@ func (iv *Inv) tryDischarge(s invSite) (bool, string) {
 		return true, "g3/g2: " + strings.Join(why, "; ")
 	case "storeset":
 		site := iv.siteOf(s)
-		args := site.Args()
-		return iv.keyNonEmpty(fn, s.instr, args[0])
+		key := iv.w.CG().StoreKeyOf(site)
+		if key == nil {
+			return false, "store write without a key operand"
+		}
+		return iv.keyNonEmpty(fn, s.instr, key)
 	case "typeassert":
 		ta := s.instr.(*ssa.TypeAssert)
 		var edges []Edge
